@@ -43,7 +43,12 @@ orc_target_get_by_name (const char *name)
 OrcTarget *
 orc_target_get_default (void)
 {
-  char *const envvar = _orc_getenv ("ORC_BACKEND");
+  /* ORC_TARGET is the documented name (doc/running.xml); ORC_BACKEND is what
+   * this function used to read and is kept as a fallback */
+  char *envvar = _orc_getenv ("ORC_TARGET");
+
+  if (envvar == NULL)
+    envvar = _orc_getenv ("ORC_BACKEND");
 
   if (envvar != NULL) {
     OrcTarget *const target = orc_target_get_by_name (envvar);
